@@ -211,7 +211,11 @@ def r6(c):
         b = P.fn(f)
         snd = b.calls(sender)
         ok = len(snd) == 1 and q.is_name(b, snd[0].args[1], 'command') and not b.in_cycle(snd[0].node)
-        other = [cs for cs in b.calls() if not q.is_machinery(cs) and cs is not snd[0] and effects.get(P).of_call(cs)]
+        # (the conversion of the send error - which drops the refused command, i.e. lets the Drop backstop complete it - is
+        #  part of that: `try_send(command)?` and `.map_err(Error::from)` are the same)
+        def of_send_error(cs):
+            return bool(snd) and cs.declared in ('core::convert::From::from', 'core::convert::Into::into') and cs.args and q.may_be_error_of(b, cs.args[0], sender)
+        other = [cs for cs in b.calls() if not q.is_machinery(cs) and cs is not snd[0] and effects.get(P).of_call(cs) and not of_send_error(cs)]
         c.ob('%s' % '::'.join(f.split('::')[-2:]), ok and not other, 'the command is handed to the queue exactly once and kept nowhere else (if the queue refuses it, it is dropped and the Drop backstop completes it)', '', loc_of(b))
 
 
